@@ -21,10 +21,12 @@ from __future__ import annotations
 
 import logging
 
+from hsverif import coq
 from hsverif.coq import Ctor, Raw, SomeV, term
 from hsverif.family import Family, merge_stats, run_family
 
 IMPORTS = "From HS Require Import Base.Prelude C19.Model."
+IMPORTS_T = "From HS Require Import Base.Prelude C19.Model C19.TopicModel."
 LEVEL = "proof"
 UNIT_NS = 15_625_000          # 1/64 s: every scripted delay is a multiple (exact in binary floating point)
 UNIT_S = 1.0 / 64.0
@@ -340,17 +342,19 @@ _OUT = {"OPublished": "OPublished", "OFull": "OFull", "OSuspend": "OSuspend", "O
         "ODelivery": "ODelivery", "ORedelivery": "ORedelivery"}
 
 
-def _snap_term(s):
-    return ((s["pending"], s["inflight"], s["msgs"], s["resched"]), (s["cons"], s["cidx"]),
-            [tuple(o) for o in s["objs"]], s["dead"], s["ctr"])
+def _snap_term(s, prev_objs):
+    diffs = [(i, tuple(o)) for i, o in enumerate(s["objs"]) if i >= len(prev_objs) or prev_objs[i] != o]
+    return ((s["pending"], s["inflight"], s["msgs"], s["resched"]), (s["cons"], s["cidx"]), diffs, s["dead"], s["ctr"])
 
 
 def encode_mq(c, obs):
     cfg = c["cfg"]
     cfg_t = Ctor("Build_mqcfg", cfg["max"], opt(cfg["cap"]), cfg["delay"] * UNIT_NS, cfg["dlq"], opt(cfg["dlqcap"]))
     tr = []
+    prev = []
     for e in obs["trace"]:
-        tr.append((Ctor(e["op"][0], *e["op"][1:]), [Ctor(_OUT[o[0]], *o[1:]) for o in e["outs"]], _snap_term(e["snap"])))
+        tr.append((Ctor(e["op"][0], *e["op"][1:]), [Ctor(_OUT[o[0]], *o[1:]) for o in e["outs"]], _snap_term(e["snap"], prev)))
+        prev = e["snap"]["objs"]
     return term((cfg_t, tr))
 
 
@@ -503,11 +507,196 @@ def describe_mq(c):
     return f"cons={len(c['cons'])},max={c['cfg']['max']},lat={c['cfg']['latency']}"
 
 
-MQ_CASE = "mqcfg * list (op * list out * snap)"
+
+# =========================================================================== Topic
+def gen_topic(rng):
+    nsub = rng.randint(1, 4)
+    script = []
+    t = 0
+    n = 0
+    for _ in range(rng.randint(1, 18)):
+        t += rng.choice([0, 0, 1, 1, 2, 5])
+        k = rng.random()
+        if k < 0.3:
+            script.append([t, "sub", rng.randrange(nsub)])
+        elif k < 0.45:
+            script.append([t, "unsub", rng.randrange(nsub)])
+        elif k < 0.8:
+            script.append([t, rng.choice(["pub", "pub", "dpub"]), n])
+            n += 1
+        else:
+            script.append([t, "pubsync", n])
+            n += 1
+    return dict(latency=rng.choice([0, 1, 1, 2, 3]), maxsubs=rng.choice([None, None, None, 1, 2, 3]), nsub=nsub,
+                script=script, presub=[i for i in range(nsub) if rng.random() < 0.6])
+
+
+def impl_topic(c):
+    logging.disable(logging.CRITICAL)
+    from happysimulator.components.messaging import Topic
+    from happysimulator.core.entity import Entity
+    from happysimulator.core.event import Event
+    from happysimulator.core.simulation import Simulation
+    from happysimulator.core.temporal import Instant
+
+    topic = Topic("t", delivery_latency=c["latency"] * UNIT_S, max_subscribers=c["maxsubs"])
+    names = [f"s{i}" for i in range(c["nsub"])]
+    idx = {n: i for i, n in enumerate(names)}
+    trace, received = [], []
+    st = {"h": 0}
+
+    def now():
+        return topic._clock.now.nanoseconds if topic._clock else 0
+
+    def snap():
+        s = topic.stats
+        return dict(subs=[[idx[sub.subscriber.name], bool(sub.active), sub.messages_received] for sub in topic._subscriptions.values()],
+                    ctr=[s.messages_published, s.messages_delivered, s.subscribers_added, s.subscribers_removed])
+
+    def rec(op, outs):
+        trace.append(dict(op=op, outs=outs, snap=snap(), t=now(), seq=len(trace) + len(received)))
+
+    def evs_out(evs):
+        return [["TDelivery", idx[e.target.name], e.context["payload"].context["n"], e.time.nanoseconds] for e in evs]
+
+    o_sub, o_unsub, o_pub, o_sync = topic.subscribe, topic.unsubscribe, topic.publish, topic.publish_sync
+
+    def subscribe(sub, replay_history=False):
+        try:
+            r = o_sub(sub, replay_history)
+        except RuntimeError:
+            rec(["TSubscribe", idx[sub.name]], [["TFull"]])
+            raise
+        rec(["TSubscribe", idx[sub.name]], [])
+        return r
+
+    def unsubscribe(sub):
+        o_unsub(sub)
+        rec(["TUnsubscribe", idx[sub.name]], [])
+
+    def publish_sync(message):
+        evs = o_sync(message)
+        rec(["TPublishSync", message.context["n"], now()], evs_out(evs))
+        return evs
+
+    def publish(message):
+        st["h"] += 1
+        h, mid = st["h"], message.context["n"]
+        inner = o_pub(message)
+        try:
+            y = next(inner)
+        except StopIteration as e:
+            rec(["TPublishBegin", h, mid], evs_out(e.value))
+            return e.value
+        rec(["TPublishBegin", h, mid], [["TSuspend"]])
+        while True:
+            sent = yield y
+            try:
+                y = inner.send(sent)
+            except StopIteration as e:
+                rec(["TPublishResume", h, now()], evs_out(e.value))
+                return e.value
+            rec(["TPublishResume", h, now()], [["TSuspend"]])
+
+    topic.subscribe, topic.unsubscribe, topic.publish, topic.publish_sync = subscribe, unsubscribe, publish, publish_sync
+
+    class Sub(Entity):
+        def handle_event(self, ev):
+            if ev.event_type == "topic_message":
+                received.append(dict(c=idx[self.name], mid=ev.context["payload"].context["n"], t=self.now.nanoseconds,
+                                     seq=len(trace) + len(received)))
+            return []
+
+    subs = [Sub(n) for n in names]
+
+    class Driver(Entity):
+        def handle_event(self, ev):
+            a = ev.context["a"]
+            k = a[1]
+            if k == "sub":
+                try:
+                    topic.subscribe(subs[a[2]])
+                except RuntimeError:
+                    pass
+            elif k == "unsub":
+                topic.unsubscribe(subs[a[2]])
+            elif k == "pub":
+                msg = Event(time=self.now, event_type="m", target=self, context={"n": a[2]})
+                return [Event(time=self.now, event_type="publish", target=topic, context={"payload": msg})]
+            elif k == "dpub":
+                msg = Event(time=self.now, event_type="m", target=self, context={"n": a[2]})
+                evs = yield from topic.publish(msg)
+                return evs
+            elif k == "pubsync":
+                msg = Event(time=self.now, event_type="m", target=self, context={"n": a[2]})
+                return topic.publish_sync(msg)
+            return []
+
+    drv = Driver("drv")
+    for i in c["presub"]:
+        try:
+            topic.subscribe(subs[i])
+        except RuntimeError:
+            pass
+    sim = Simulation(entities=[topic, drv] + subs, end_time=Instant(10 ** 12))
+    for a in c["script"]:
+        sim.schedule(Event(time=Instant(a[0] * UNIT_NS), event_type="act", target=drv, context={"a": a}))
+    sim.run()
+    return dict(trace=trace, received=received)
+
+
+def encode_topic(c, obs):
+    tr = []
+    for e in obs["trace"]:
+        tr.append((Ctor(e["op"][0], *e["op"][1:]), [Ctor(o[0], *o[1:]) for o in e["outs"]],
+                   ([tuple(x) for x in e["snap"]["subs"]], e["snap"]["ctr"])))
+    return term((opt(c["maxsubs"]), tr))
+
+
+def oracle_topic(c, obs):
+    """Topic: every published message reaches every subscriber active at publish time exactly once."""
+    tr, recv = obs["trace"], obs["received"]
+    lat = c["latency"] * UNIT_NS
+    fails = []
+    prev = []
+    expected = {}
+    for e in tr:
+        op = e["op"]
+        if op[0] in ("TPublishBegin", "TPublishSync"):
+            active = [s[0] for s in prev if s[1]]
+            mid = op[2] if op[0] == "TPublishBegin" else op[1]
+            when = e["t"] + (len(active) * lat if op[0] == "TPublishBegin" else 0)
+            expected[mid] = (sorted(active), when)
+        prev = e["snap"]["subs"]
+    for mid, (active, when) in expected.items():
+        got = sorted(r["c"] for r in recv if r["mid"] == mid)
+        if got != active:
+            missing = [x for x in active if x not in got]
+            fails.append(dict(clause="topic: every published message reaches every subscriber active at publish time exactly once",
+                              mechanism="delivery-event-not-received" if missing and not [x for x in got if x not in active] and len(set(got)) == len(got) else "wrong-recipients",
+                              message=mid, active_at_publish=active, received_by=got))
+            break
+        late = [r for r in recv if r["mid"] == mid and r["t"] != when]
+        if late:
+            fails.append(dict(clause="topic: deliveries arrive one delivery latency per subscriber after publish", message=mid,
+                              expected=when, got=late[0]["t"]))
+            break
+    stray = [r for r in recv if r["mid"] not in expected]
+    if stray:
+        fails.append(dict(clause="topic: only published messages are delivered", got=stray[0]))
+    return fails
+
+
+TOPIC_CASE = "option Z * list (top * list tout * tsnap)"
+
+MQ_CASE = "mqcfg * list (op * list out * dsnap)"
 
 FAMILIES = [
     Family("mq", IMPORTS, "ok_mq", MQ_CASE, gen_mq, impl_mq, encode_mq, oracle_mq, nontrivial_mq,
-           parallel=True, describe=describe_mq),
+           parallel=False, describe=describe_mq),
+    Family("topic", IMPORTS_T, "ok_topic", TOPIC_CASE, gen_topic, impl_topic, encode_topic, oracle_topic,
+           lambda c, o: any(e["op"][0] == "TPublishResume" for e in o["trace"]), parallel=False,
+           describe=lambda c: f"subs={c['nsub']},lat={c['latency']}"),
 ]
 
 TRUSTED = [
@@ -520,8 +709,11 @@ TRUSTED = [
 
 
 def run(ctx):
-    ctx.prove(["C19/Model.v", "C19/MQ.v", "C19/Props.v"], allowed_axioms=(), trusted_base=TRUSTED)
-    stats = [run_family(ctx, FAMILIES[0], ctx.n(300, 5000))]
+    ctx.prove(["C19/Model.v", "C19/MQ.v", "C19/MQOrder.v", "C19/TopicModel.v", "C19/Topic.v", "C19/Props.v"], allowed_axioms=(), trusted_base=TRUSTED)
+    ctx.coq_cases = lambda tag, imports, ok_fn, case_type, cases: coq.eval_cases(
+        f"{ctx.pid}_{tag}", imports, ok_fn, case_type, cases, shard=max(10, len(cases) // 12 + 1), workers=12)
+    counts = {"mq": ctx.n(160, 4000), "topic": ctx.n(120, 3000)}
+    stats = [run_family(ctx, fam, counts[fam.name]) for fam in FAMILIES]
     merge_stats(ctx, stats, "scripted scenarios in a real Simulation; non-trivial = at least one completed delivery and one ack/reject/timeout; distinct by JSON of the input")
     ctx.finish_obligations()
 
